@@ -208,6 +208,14 @@ def gen_page(rng, selfname=None):
         if selfname and rng.random() < 0.15:
             # a file that runs into its own include cycle more than once within one expansion
             lines += [f".. include:: /{selfname}", ""]
+    if rng.random() < 0.06:
+        # a working tabs selector (selector + a tab set with known tab ids), optionally next to page-level fields of the names
+        # the selector handler writes its results under
+        if rng.random() < 0.6:
+            lines = [f":{rng.choice(['selectors', 'default_tabs'])}: {rng.choice(['foo', 'drivers'])}", ""] + lines
+        lines += ["", ".. tabs-selector:: drivers"] + (["   :default-tabid: " + rng.choice(["shell", "nope"])] if rng.random() < 0.6 else []) + [
+            "", ".. tabs-drivers::", "", "   .. tab::", "      :tabid: shell", "", "      in the shell", "",
+            "   .. tab::", "      :tabid: python", "", "      in python", ""]
     return "\n".join(lines) + "\n"
 
 
